@@ -745,6 +745,7 @@ impl<'a> Lexer<'a> {
             '.' => {
                 let start_pos = self.cur - 1;
                 while self.eat_char(char::is_numeric) {}
+                self.eat_exponent();
                 let end_pos = self.cur;
                 let f = f64::from_str(self.sub_string(start_pos, end_pos)).unwrap();
                 Token::Float(f)
@@ -777,6 +778,9 @@ impl<'a> Lexer<'a> {
                         }
                     };
                     while self.eat_char(&mut check_digit) {}
+                    if self.eat_exponent() {
+                        is_integer = false;
+                    }
                     let end_pos = self.cur;
                     let s = self.sub_string(start_pos, end_pos);
                     if is_integer {
@@ -791,6 +795,17 @@ impl<'a> Lexer<'a> {
         });
 
         self.peek.as_ref()
+    }
+
+    /// Eats the exponent of a floating point literal (`e` or `E`, an optional sign and the digits) if there is one.
+    fn eat_exponent(&mut self) -> bool {
+        if self.eat_char(|c| c == 'e' || c == 'E') {
+            self.eat_char(|c| c == '+' || c == '-');
+            while self.eat_char(char::is_numeric) {}
+            true
+        } else {
+            false
+        }
     }
 
     fn next_char(&mut self) -> Option<char> {
